@@ -81,6 +81,10 @@ def nativeOf (raced : List Nat) (s : State) (e : Ev) (s' : State) : List String 
   | .current t => lib t
   | .exit t _ => lib t
   | .tlsFail _ _ _ => ["kcfail"]
+  | .storeFail _ k r =>
+    match (s.key k).published with
+    | some n => (if r ∨ setCallsNotifier then ["gs" ++ sh n] else []) ++ ["ssfail" ++ sh n]
+    | none => []
   | .currentFail _ =>     -- the read-back `p_uthread_get_local` reaches `pthread_getspecific` only if it could make the native key
     match (s.key 0).published with
     | some n => ["gs" ++ sh n]
@@ -293,6 +297,16 @@ def step (s : St) (toks : List String) : IO (St × Bool) := do
         match k.toNat? with
         | some k => fin (needKey m a k ++ [.getLocal a k]) "value"
         | _ => bad
+      | ["set", k, v, "ssfail"] =>
+        -- the native `pthread_setspecific` reports an error: nothing is stored
+        match k.toNat?, v.toNat? with
+        | some k, some _ => fin (needKey m a k ++ [.storeFail a k false]) "none"
+        | _, _ => bad
+      | ["replace", k, v, "ssfail"] =>
+        -- … after `p_uthread_replace_local` has passed the old value to the notifier
+        match k.toNat?, v.toNat? with
+        | some k, some _ => fin (needKey m a k ++ [.storeFail a k true]) "none"
+        | _, _ => bad
       | ["set", k, v, "fail"] =>
         -- the lazy `pthread_key_create` fails: nothing is stored, no notifier
         match k.toNat?, v.toNat? with
